@@ -24,6 +24,8 @@ type SpecEnv struct {
 	lookup func(st *State, name string) (*Val, bool)
 	entry  *State // state at loop entry (for entry(e) in loop clauses)
 	visited string // visited-key set of the map range loop the clause belongs to
+	cbOrd   int    // callback whose invariant is being evaluated (for _n, _a0..)
+	cbN     string
 	frame  *Frame
 	depth  int
 }
@@ -141,6 +143,9 @@ func (env *SpecEnv) ident(name string) *Val {
 	x := env.x
 	if v, ok := env.vars[name]; ok {
 		return v
+	}
+	if name == "_n" && env.cbN != "" {
+		return mkInt(types.Typ[types.Int], env.cbN)
 	}
 	switch name {
 	case "true":
@@ -464,6 +469,36 @@ func (env *SpecEnv) call(n *ast.CallExpr) *Val {
 			sub := *env
 			sub.st = env.old
 			return sub.eval(n.Args[0])
+		case "cbcount":
+			k := env.eval(n.Args[0])
+			ci := x.cbFor(k.T())
+			if ci == nil {
+				sfail("no callback %s", k.T())
+			}
+			return mkInt(types.Typ[types.Int], ci.count)
+		case "cbarg0", "cbarg1", "cbarg2", "_a0", "_a1", "_a2":
+			var ci *cbInfo
+			var idx string
+			if strings.HasPrefix(id.Name, "_a") {
+				ci = x.cbs[env.cbOrd]
+				idx = env.eval(n.Args[0]).T()
+			} else {
+				ci = x.cbFor(env.eval(n.Args[0]).T())
+				idx = env.eval(n.Args[1]).T()
+			}
+			if ci == nil {
+				sfail("%s: no such callback", id.Name)
+			}
+			j := int(id.Name[len(id.Name)-1] - '0')
+			if j >= len(ci.args) {
+				sfail("%s: callback has %d parameters", id.Name, len(ci.args))
+			}
+			out := &Val{Ty: ci.ptypes[j], L: make([]string, len(ci.args[j]))}
+			for l, a := range ci.args[j] {
+				out.L[l] = tSel(a, idx)
+			}
+			x.typeFacts(out)
+			return out
 		case "has":
 			m := env.eval(n.Args[0])
 			if !isMap(m.Ty) {
@@ -545,6 +580,10 @@ func (env *SpecEnv) call(n *ast.CallExpr) *Val {
 			a := env.eval(n.Args[0])
 			b := env.eval(n.Args[1])
 			return mkBool(x.seqEq(x.seqOf(env.st, a), x.seqOf(env.st, b), litOf(a), litOf(b)))
+		case "sameStr":
+			a := env.eval(n.Args[0])
+			b := env.eval(n.Args[1])
+			return mkBool(tAnd(tEq(a.L[0], b.L[0]), tEq(a.L[1], b.L[1]), tEq(a.L[2], b.L[2])))
 		case "sameSlice":
 			a := env.eval(n.Args[0])
 			b := env.eval(n.Args[1])
@@ -587,6 +626,14 @@ func (env *SpecEnv) call(n *ast.CallExpr) *Val {
 	}
 	// method call or function call on real code
 	return env.callReal(n)
+}
+
+func (x *Exec) cbFor(ordLit string) *cbInfo {
+	n, ok := isNumLit(ordLit)
+	if !ok || !n.IsInt64() {
+		return nil
+	}
+	return x.cbs[int(n.Int64())]
 }
 
 func (env *SpecEnv) convert(v *Val, t types.Type) *Val {
@@ -709,8 +756,22 @@ func (env *SpecEnv) callSpec(sf *SpecFunc, args []*Val) *Val {
 			}
 		}
 		rs := leafSorts(rt)
-		if len(rs) != 1 {
-			sfail("spec func %s: composite result type unsupported", sf.Name)
+		if len(rs) != 1 && sf.Body != nil {
+			sfail("spec func %s: composite result type needs an uninterpreted function", sf.Name)
+		}
+		if sf.Body == nil && len(rs) != 1 {
+			// uninterpreted with a composite result: one SMT function per leaf
+			out := &Val{Ty: rt, L: make([]string, len(rs))}
+			for l, s := range rs {
+				ln := fmt.Sprintf("%s_%d", name, l)
+				if !x.vc.recDone[ln] {
+					x.vc.recDone[ln] = true
+					x.vc.recDefs = append(x.vc.recDefs, "(declare-fun "+ln+" ("+strings.Join(sorts, " ")+") "+s+")")
+				}
+				out.L[l] = "(" + ln + " " + strings.Join(flat, " ") + ")"
+			}
+			x.typeFacts(out)
+			return out
 		}
 		if !x.vc.recDone[name] {
 			x.vc.recDone[name] = true
